@@ -721,9 +721,13 @@ def check_c16(pid, tier, seed, rep):
 
 def check_c11(pid, tier, seed, rep):
     """Determinism: order-independence theorems + repeated/stale/truncated-output experiments + examples regenerated."""
-    import stage_det
+    import stage_det, census
+    # translator: every map iteration / ambient-data site of the generator's packages in the CURRENT source, joined with the
+    # reviewed table, regenerated into coq/Census_gen.v before the theorems are re-checked
+    sites, unrev = census.regenerate()
+    gen_unrev = [s for s in unrev if s["group"] == "generator"]
     cov = prove(pid, rep)
-    R = stage_det.stage(seed, tier)
+    R = stage_det.stage(seed, "thorough" if gen_unrev else tier)      # an unreviewed site: search with the deep experiment set
     nviol = 0
     runs = 0
     for e in R["experiments"]:
@@ -739,6 +743,15 @@ def check_c11(pid, tier, seed, rep):
     if R["goroutines"]:
         rep.violation("goroutines", dict(statements=R["goroutines"], theorem="Properties/C11.v assumes the generator is sequential (only map order varies)"),
                       "the generator now starts goroutines: %s" % R["goroutines"][:2], True)
+    if gen_unrev:
+        found = nviol > 0
+        rep.violation("census", dict(correspondence="coq/Census_gen.v (tools/census.py): a site of the generator's packages where a run can depend on something other than its input is not in the reviewed table tools/census_reviewed.json",
+                                     theorem="Properties/C11.v: C11_every_map_iteration_order_independent",
+                                     sites=[dict(kind=s["kind"], file=s["file"], line=s["line"], func=s["func"], what=s["what"], source=s["source"][:1500], next=s["next"][:400]) for s in gen_unrev[:6]],
+                                     failing_input=("see the exp-* replays of this run" if found else None)),
+                      "unreviewed %s in %s:%d (%s): %s" % (gen_unrev[0]["kind"], gen_unrev[0]["file"], gen_unrev[0]["line"], gen_unrev[0]["func"], (gen_unrev[0]["header"] or gen_unrev[0]["what"])[:160]), not found)
+    cov["census"] = dict(sites=[dict(kind=s["kind"], where="%s:%d %s" % (s["file"], s["line"], s["func"]), what=s["header"] or s["what"], cls=s["class"]) for s in sites if s["group"] == "generator"],
+                         unreviewed=len(gen_unrev), how="go/types pass over . ./internal/... ./cmd/... (harness/overlay/census_main.go): map ranges, maps.Keys/Values/All, reflect and typeutil map iteration, go, select, clocks, random numbers, process/environment data, %p")
     cov.update(evaluations=runs, programs=len(R["experiments"]), disagreements_checked=runs, examples_regenerated=R["examples_checked"],
                samples=[dict(package=e["name"], files=e["files"], runs=e["runs"]) for e in R["experiments"][:4]],
                input_distribution=dict(conditions=["rerun over previous output x GOMAXPROCS 1,2,4,8,16", "fresh x GOMAXPROCS 1,16,3", "stale output of another revision", "empty file", "8 truncation points"],
@@ -931,9 +944,13 @@ def check_c13(pid, tier, seed, rep):
 
 def check_c14(pid, tier, seed, rep):
     """Migrated file: alias allocator theorems + gofmt/vet/determinism of every migrated package + invalid inputs write nothing."""
-    import stage_w, random
+    import stage_w, random, census
+    sites, unrev = census.regenerate()
+    mig_unrev = [s for s in unrev if s["group"] == "migrate"]
     cov = prove(pid, rep)
-    W = stage_w.stage(seed, tier)
+    cov["census"] = dict(sites=[dict(kind=s["kind"], where="%s:%d %s" % (s["file"], s["line"], s["func"]), what=s["header"] or s["what"], cls=s["class"]) for s in sites if s["group"] == "migrate"],
+                         unreviewed=len(mig_unrev))
+    W = stage_w.stage(seed, "thorough" if mig_unrev else tier)
     nviol = 0
     nfiles = 0
     for r in W["records"]:
@@ -953,6 +970,11 @@ def check_c14(pid, tier, seed, rep):
             rep.violation("directed-%s" % r["name"], dict(package_dir=os.path.join(W["directed"]["srcdir"], "d" + r["name"] + "_k"), problems=probs, migrated=r.get("kessoku_go"),
                                                            how="cd <package_dir> && kessoku migrate -o kessoku.go ./ && rm wire.go && gofmt -l kessoku.go && go vet ."),
                           "directed configuration %s: %s" % (r["name"], probs[0][:300]))
+    if mig_unrev:
+        rep.violation("census", dict(correspondence="coq/Census_gen.v (tools/census.py): a site of internal/migrate where a run can depend on something other than its input is not in the reviewed table tools/census_reviewed.json",
+                                     theorem="Properties/C14.v: C14_every_map_iteration_order_independent",
+                                     sites=[dict(kind=s["kind"], file=s["file"], line=s["line"], func=s["func"], what=s["what"], source=s["source"][:1500], next=s["next"][:400]) for s in mig_unrev[:6]]),
+                      "unreviewed %s in %s:%d (%s): %s" % (mig_unrev[0]["kind"], mig_unrev[0]["file"], mig_unrev[0]["line"], mig_unrev[0]["func"], (mig_unrev[0]["header"] or mig_unrev[0]["what"])[:160]), nviol == 0)
     # migrate's own type spelling (TypeConverter.TypeToExpr): the expression it produces for a random type must denote that type
     import stage_t
     T = stage_t.stage(seed, tier, "migrate")
